@@ -56,8 +56,36 @@ CLAIMED = {
              "serialised and re-read (reload step): same abstract tree (content digests), same serialisation, RunningOrder class, "
              "same completed flag; envelope clause judged on every merge step.",
         design="6/C14", technique="TLA+ history model checked by TLC; behaviour replay with reload steps; TLC trace judge"),
+    "C08": dict(
+        text="spec/MosClassify.tla gives the class / library exception of every abstract document; TLC checks totality and that the "
+             "outcome is a function of the message element alone over the bounded document set (16 tags x childless, 7 operations x "
+             "4 target x 6 source shapes, siblings and nested look-alikes, 5 malformed kinds); every document is rendered and "
+             "classified from str, bytes and file under warning filters default/error and in a fresh python -W error interpreter; "
+             "TLC (Trace_Classify) judges the recorded outcomes.",
+        design="6/C08", technique="TLA+ case-analysis model checked by TLC; exhaustive replay into the classifier; TLC trace judge",
+        note="Trusted: TLC; ElementTree; harness/classify.py render_doc. Documents with two recognised message elements are outside the claim."),
+    "C09": dict(
+        text="spec/MC_coll.tla models construct/validate/merge-loop as a state machine; TLC checks Expected() (fold in ascending id "
+             "order, strict stops at first failure, non-strict one warning per failure) and liveness (every run terminates; non-strict "
+             "reaches done) for every ordered list up to 3/4 documents x strict x allow; every list is run through the real "
+             "constructors and merge; recorded runs are judged by TLC (Trace_Coll) and every `ro += msg` inside mc.merge() by "
+             "Trace_Merge; the result is also compared with a hand fold over freshly parsed messages.",
+        design="6/C09", technique="TLA+ state machine checked by TLC (safety + liveness); replay of every bounded collection; TLC trace judges",
+        note="Trusted: TLC; ElementTree; harness alpha/gamma; FakeS3; tracer wrapper. Message kinds ok/warn/fail are realised by StoryAppend / StoryDelete(unknown) / StoryReplace(unknown)."),
+    "C10": dict(
+        text="All permutations of all document subsets (ids of mixed width 8..1000) are distinct TLC initial states; TLC checks that "
+             "construction is permutation independent and numerically ascending; each permutation is built through the three "
+             "constructors and the reader order and merged result compared with the spec's order / the hand fold.",
+        design="6/C10", technique="TLA+ model checked by TLC over all permutations; replay; TLC trace judge"),
+    "C11": dict(
+        text="TLC checks staged validation = the four-clause declarative predicate for every list in the bound (incl. the empty list, "
+             "0..2 roCreate, 0..2 roDelete, mixed roIDs) x allow_incomplete; each case is constructed in-process through three "
+             "constructors and in a fresh `python -O` interpreter; accepted/InvalidMosCollection, ro and readers judged by TLC.",
+        design="6/C11", technique="TLA+ model checked by TLC; replay incl. python -O subprocess; TLC trace judge"),
     "C12": dict(
-        text="The `contained` clause over all bounded transitions of all 24 classes: a schema-shaped message never ends in a built-in exception.",
+        text="The `contained` clause over all bounded transitions of all 24 classes (a schema-shaped message never ends in a built-in "
+             "exception), `classify_contained` over every well-formed document of MC_classify, and `coll_contained` over every bounded "
+             "collection run (non-strict merges run to the end; also a TLC liveness property of MC_coll).",
         design="6/C12", technique="TLA+ model checked by TLC; exhaustive transition replay; TLC trace judge"),
 }
 
